@@ -37,6 +37,10 @@ def gen_rename_case(rng):
         key = f"k{j}"
         if j > 0 and rng.random() < 0.1 and all(k_ != "" for k_, _ in kw):
             key = ""  # one empty key now and then, never first (keyword dictionaries have distinct keys)
+        if rng.random() < 0.15:
+            cand = rng.choice(lf.HOSTILE_NAMES)  # parameter-like names, keywords, dunders, unicode, very long
+            if all(k_ != cand for k_, _ in kw):
+                key = cand
         kw.append([key, rng.randrange(n)])
     return {"n": n, "kw": kw, "store": store, "raises": rng.random() < 0.5}
 
